@@ -507,7 +507,7 @@ func Encode(toks []int) string {
 		if t < 0 {
 			b[i] = '?'
 		} else {
-			b[i] = byte('a' + t)
+			b[i] = byte(64 + t) // '@' + token index: printable ASCII for up to 62 tokens
 		}
 	}
 	return string(b)
